@@ -199,7 +199,7 @@ class _Break(Exception):
 
 
 _ITER_TYPES = ('list_iterator', 'tuple_iterator', 'dict_keyiterator', 'dict_itemiterator', 'dict_valueiterator', 'set_iterator', 'list_reverseiterator',
-               'enumerate', 'zip', 'generator')
+               'enumerate', 'zip', 'generator', 'pairwise')
 
 
 def _guarded_iter(it):
@@ -983,6 +983,11 @@ class FDE:
             raise Unsupported('attribute ayns.%s of an integer scalar node' % attr)
         if isinstance(base, EnumMember) and attr in ('name', 'value'):
             return getattr(base, attr)
+        if isinstance(base, EnumMember) and base.cls in self.repo.classes:
+            t_ = self.repo.resolve(base.cls, attr)
+            if t_ is not None and t_.is_property:
+                return self._invoke(t_, [base], {})       # a property defined by the Enum class, evaluated for this member
+            raise Unsupported('attribute %s of enum member %r' % (attr, base))
         if isinstance(base, ExcValue) and base.attrs is not None:
             if attr in base.attrs:
                 return base.attrs[attr]
@@ -1368,6 +1373,16 @@ class FDE:
                 it = list(it)
             if not isinstance(it, (list, tuple)) and type(it).__name__ not in _ITER_TYPES:
                 raise Unsupported('comprehension over non-concrete iterable: ' + unparse(gen.iter))
+            if isinstance(e, ast.GeneratorExp) and not isinstance(it, (list, tuple)) and type(it).__name__ in ('generator', 'pairwise', 'zip', 'enumerate'):
+                # a generator expression over a lazy source (a tokenizer, another generator) stays lazy: what its consumer does not ask for is
+                # never produced - code may rely on that (reading a position after the consumer stopped early)
+                def run_(it=it, gen=gen):
+                    for x in _guarded_iter(it):
+                        env2 = _Scope(env) if isinstance(env, dict) else dict(env)
+                        self._assign(gen.target, x, env2, fi)
+                        if all(self._truth(self._ev(c, env2, fi)) for c in gen.ifs):
+                            yield self._ev(e.elt, env2, fi)
+                return run_()
             out = []
             for x in it:
                 env2 = dict(env)
@@ -1696,6 +1711,10 @@ class FDE:
                         raise Unsupported('starmap over non-sequence elements')
                     yield self._apply(fn_, list(x_), {}, e)
             return star_() if lazy_ else list(star_())
+        if unparse(f) in ('itertools.pairwise', 'pairwise') and not (isinstance(f, ast.Name) and f.id in env) and len(args) == 1 and not kwargs \
+                and (isinstance(args[0], (list, tuple)) or type(args[0]).__name__ in _ITER_TYPES):
+            import itertools as _it
+            return _it.pairwise(_guarded_iter(args[0]))       # lazy, like the real one
         if unparse(f) in ('types.MappingProxyType', 'MappingProxyType') and not (isinstance(f, ast.Name) and f.id in env) and len(args) == 1 and not kwargs and isinstance(args[0], dict):
             return args[0]       # a read-only view: reads behave like the dict itself (writes through the view do not exist)
         if unparse(f) in ('itertools.count', 'count') and not (isinstance(f, ast.Name) and f.id in env) and len(args) <= 2 and not kwargs and all(isinstance(a_, int) and not isinstance(a_, bool) for a_ in args) \
@@ -1860,6 +1879,12 @@ class FDE:
                 if isinstance(o, Obj) and o.cls in self.repo.classes and cands and all(isinstance(x, tuple) and len(x) == 2 and x[0] == 'class' for x in cands):
                     mro_ = self.repo.mro(o.cls)
                     return any(x[1] in mro_ for x in cands)      # a tuple of classes (repo or built-in ones)
+                if isinstance(o, Obj) and o.cls in self.repo.classes and cands and all(isinstance(x, tuple) and len(x) == 2 and ((x[0] == 'ext' and isinstance(x[1], type)) or x[0] == 'class') for x in cands) \
+                        and any(x[0] == 'ext' for x in cands) and any(x[0] == 'class' for x in cands):
+                    # node classes / built-ins mixed with stdlib types: (dict, type(None)), (ConfigNode, collections.abc.Mapping)
+                    mro_ = self.repo.mro(o.cls)
+                    bases = [b for b in (dict, list, tuple, str, bytes, int, float, set) if b.__name__ in mro_]
+                    return any((x[0] == 'class' and x[1] in mro_) or (x[0] == 'ext' and any(issubclass(b, x[1]) for b in bases)) for x in cands)
                 if isinstance(o, Obj) and cands and all(isinstance(x, tuple) and len(x) == 2 and x[0] == 'ext' and isinstance(x[1], type) for x in cands):
                     # a node object against a stdlib ABC: decided by the built-in base of its class (dict / list / tuple / str ...)
                     if o.cls not in self.repo.classes:
@@ -1992,6 +2017,22 @@ class FDE:
                 return self._apply(env[n], args, kwargs, e)
             if n in env and isinstance(env[n], Obj) and env[n].cls in self.repo.classes and self.repo.resolve(env[n].cls, '__call__') is not None:
                 return self._invoke(self.repo.resolve(env[n].cls, '__call__'), [env[n]] + args, kwargs)
+            if n in self.repo.classes and n not in env and n not in self.stubs and n not in self.constructors and len(args) == 1 and not kwargs \
+                    and any(b.split('.')[-1] in ('Enum', 'IntEnum', 'StrEnum') for b in self.repo.classes[n].base_exprs) \
+                    and (args[0] is None or isinstance(args[0], (str, int, float, bool, bytes))):
+                # EnumClass(value): the member holding that value (ValueError when there is none)
+                ci_ = self.repo.classes[n]
+                for nm_, init_ in ci_.attrs.items():
+                    if nm_.startswith('_') or not isinstance(init_, ast.expr):
+                        continue
+                    ok_, v_ = fold_const(self.repo, init_, n)
+                    if not ok_:
+                        raise Unsupported('value of enum member %s.%s' % (n, nm_))
+                    if (n, nm_) not in self.class_objs:
+                        self.class_objs[(n, nm_)] = EnumMember(n, nm_, v_)
+                    if type(v_) is type(args[0]) and v_ == args[0]:
+                        return self.class_objs[(n, nm_)]
+                raise Raised('ValueError')
             if n in self.repo.classes and n not in env and n in self.stubs and n not in self.constructors and self.stub is not None:
                 self.effects.append(('call', n, None, tuple(args), tuple(sorted(kwargs.items(), key=lambda kv: kv[0]))))
                 return self.stub(n, None, args, kwargs)       # a class of the package the rule replaces by a stand-in
@@ -2259,6 +2300,11 @@ class FDE:
             return self._invoke(target.fi, [target.recv] + args, kwargs)
         if callable(target) and getattr(target, '_fde_ok', False):
             return self._standin(target, args, kwargs)
+        if isinstance(target, tuple) and len(target) == 3 and target[0] == 'listmethod' and (isinstance(target[1], (list, set)) or type(target[1]).__name__ == 'deque'):
+            try:
+                return getattr(target[1], target[2])(*args, **kwargs)       # a bound method of a concrete list / set held as a value (cleanup = stack.pop; cleanup())
+            except (ValueError, IndexError, KeyError, TypeError) as ex:
+                raise Raised(type(ex).__name__)
         if isinstance(target, Obj) and target.cls in self.repo.classes and self.repo.resolve(target.cls, '__call__') is not None:
             return self._invoke(self.repo.resolve(target.cls, '__call__'), [target] + list(args), dict(kwargs))
         raise Unsupported('call of the value %r (%s)' % (target, unparse(e.func) if isinstance(e, ast.Call) else unparse(e)))
